@@ -100,8 +100,13 @@ func kind(s string) string {
 }
 
 // RunModel pipes ops to the model driver and returns one answer per op.
+// zdrv is the directory holding the compiled drivers (`zdrv-<tag>`), or the path of one driver executable.
 func RunModel(zdrv, tag string, ops []string) ([]string, error) {
-	cmd := exec.Command(zdrv, tag)
+	exe := zdrv
+	if st, err := os.Stat(zdrv); err == nil && st.IsDir() {
+		exe = filepath.Join(zdrv, "zdrv-"+tag)
+	}
+	cmd := exec.Command(exe)
 	var in bytes.Buffer
 	for _, o := range ops {
 		in.WriteString(o)
@@ -209,7 +214,7 @@ func hashOps(ops []string) string {
 func Main(p Prop) {
 	tier := flag.String("tier", "quick", "quick|thorough")
 	seed := flag.Int64("seed", 1, "PRNG seed")
-	zdrv := flag.String("zdrv", "", "path of the Lean model driver")
+	zdrv := flag.String("zdrv", "/verif/lean/.lake/build/bin", "directory of the compiled Lean model drivers (zdrv-<tag>)")
 	outPath := flag.String("out", "", "result json")
 	replayDir := flag.String("replays", "", "directory for replay files")
 	replay := flag.String("replay", "", "replay file: run its ops on implementation and model, print both")
@@ -223,7 +228,7 @@ func Main(p Prop) {
 	}
 
 	res := Result{Property: p.ID, Tier: *tier, Seed: *seed, OpHist: map[string]int{}, OutHist: map[string]int{}, LenHist: map[string]int{}}
-	res.ModelCmd = *zdrv + " " + p.Model
+	res.ModelCmd = *zdrv + "/zdrv-" + p.Model
 	n := 0
 	if p.Cases != nil {
 		n = p.Cases(thorough)
